@@ -20,25 +20,45 @@ package mongodb
 // Repository methods used by the push-pull handler. Trusted at this level: each wraps one
 // MongoDB driver command (FindOne/Find/InsertMany/UpdateOne) and decodes BSON; the filter
 // construction inside them is under contract separately (C17).
+// A filter document is a list of (field, value) pairs; eqAt(f, i, field, v): its i-th pair is field == v;
+// cmpAt(f, i, field, op, v): its i-th pair is field: {op: v} (op is "$gte" / "$lte"); qf()/qs(): the filter / sort
+// document of the last command; dbErr(): that command failed with something else than "no documents"
+//@ pred cmpAt(f schema.Filter, i int, field string, op string, v interface{}) = i < len(f) && f[i].Key == field && f[i].Value != nil && f[i].Value.(bson.D) && len(f[i].Value.(as bson.D)) == 1 && f[i].Value.(as bson.D)[0].Key == op && f[i].Value.(as bson.D)[0].Value == v
+//@ pred qf() = G.qFilter.(as schema.Filter)
+//@ pred qs() = G.qSort.(as bson.D)
+//@ pred dbErr() = G.qErr != nil && G.qErr != mongo.ErrNoDocuments
+//@ pred eqAt(f schema.Filter, i int, field string, v interface{}) = i < len(f) && f[i].Key == field && f[i].Value == v
 //@ func (*MongoCollections).GetDatatypeByKey
 //@   trusted MongoDB FindOne with filter {colNum, key} + BSON decode
 //@   mode math
+//@   props C17 C13 C08
+//@   requires ctx != nil
+//@   checks[one-query-on-datatypes] G.qCount == old(G.qCount) + 1 && G.qKind == "FindOne" && G.qColl == old(its.datatypes)
+//@   checks[filter-is-collection-and-key] len(G.qFilter.(as schema.Filter)) == 2 && eqAt(G.qFilter.(as schema.Filter), 0, "colNum", collectionNum) && eqAt(G.qFilter.(as schema.Filter), 1, "key", key)
+//@   checks[database-error-is-reported] G.qErr != nil && G.qErr != mongo.ErrNoDocuments ==> result1 != nil
+//@   checks[absent-is-not-an-error] G.qErr != nil && G.qErr == mongo.ErrNoDocuments ==> result0 == nil && result1 == nil
 //@   ensures result1 != nil ==> result0 == nil
 //@   ensures[finds-iff-stored] result1 == nil ==> (result0 != nil) == keyExists(collectionNum, key)
 //@   ensures result0 != nil ==> fresh(result0) && result0.Key == key && result0.CollectionNum == collectionNum && docWF(result0)
 //@   ensures[inv-log] result0 != nil ==> result0.Sseq.End == G.stored && G.stored < 4611686018427387904
 //@   ensures result0 != nil ==> (forall c string :: (c in result0.RWClients ==> fresh(result0.RWClients[c].CP)) && (c in result0.ROClients ==> fresh(result0.ROClients[c].CP)))
-//@   modifies alloc
+//@   modifies alloc, G:qKind, G:qColl, G:qFilter, G:qSort, G:qCount, G:qErr
 
 //@ func (*MongoCollections).GetDatatype
 //@   trusted MongoDB FindOne with filter {_id} + BSON decode
 //@   mode math
+//@   props C17 C13 C08
+//@   requires ctx != nil
+//@   checks[one-query-on-datatypes] G.qCount == old(G.qCount) + 1 && G.qKind == "FindOne" && G.qColl == old(its.datatypes)
+//@   checks[filter-is-the-duid] len(qf()) == 1 && eqAt(qf(), 0, "_id", duid)
+//@   checks[database-error-is-reported] dbErr() ==> result1 != nil
+//@   checks[absent-is-not-an-error] G.qErr != nil && G.qErr == mongo.ErrNoDocuments ==> result0 == nil && result1 == nil
 //@   ensures result1 != nil ==> result0 == nil
 //@   ensures result0 != nil ==> fresh(result0) && result0.DUID == duid && docWF(result0)
 //@   ensures[inv-log] result0 != nil ==> result0.Sseq.End == G.stored && G.stored < 4611686018427387904
 //@   ensures[inv-log] result0 == nil && result1 == nil ==> G.stored == 0
 //@   ensures result0 != nil ==> (forall c string :: (c in result0.RWClients ==> fresh(result0.RWClients[c].CP)) && (c in result0.ROClients ==> fresh(result0.ROClients[c].CP)))
-//@   modifies alloc
+//@   modifies alloc, G:qKind, G:qColl, G:qFilter, G:qSort, G:qCount, G:qErr
 
 // Ghost view of the operations collection for the datatype being served: G.stored is the number
 // of stored operations. The induction hypothesis of C06 (Inv_log: ids duid:1..stored, sseq i at
@@ -56,35 +76,59 @@ package mongodb
 //@ func (*MongoCollections).GetOperations
 //@   trusted MongoDB Find {duid, sseq >= from [, <= to]} sorted by sseq ascending + BSON decode; consecutive numbering is the C06 invariant at request entry
 //@   mode math
+//@   props C06 C11 C05
+//@   requires ctx != nil
+//@   loop 0 invariant len(opList) == len(sseqList)
+//@   checks[one-query-on-operations] G.qCount == old(G.qCount) + 1 && G.qKind == "Find" && G.qColl == old(its.operations)
+//@   checks[range-of-this-datatype] eqAt(qf(), 0, "duid", duid) && cmpAt(qf(), 1, "sseq", "$gte", from)
+//@   checks[upper-bound-honoured] to != constants.InfinitySseq ==> len(qf()) == 3 && cmpAt(qf(), 2, "sseq", "$lte", to)
+//@   checks[no-upper-bound-when-unbounded] to == constants.InfinitySseq ==> len(qf()) == 2
+//@   checks[in-log-order] G.qSort != nil && G.qSort.(bson.D) && len(qs()) == 1 && eqAt(qs(), 0, "sseq", 1)
+//@   checks[database-error-is-reported] G.qErr != nil ==> result2 != nil
+//@   checks[one-sseq-per-operation] len(result0) == len(result1)
 //@   ensures result2 != nil ==> len(result0) == 0 && len(result1) == 0
 //@   ensures len(result0) == len(result1)
 //@   ensures forall i int :: 0 <= i && i < len(result0) ==> result0[i] != nil && result0[i].ID != nil && result1[i] == from + i && result0[i].$sseq == from + i
 //@   ensures result2 == nil && to == constants.InfinitySseq ==> len(result0) == (from <= G.stored ? G.stored - from + 1 : 0)
 //@   ensures[records-range] G.lastFrom == from
-//@   modifies alloc, G:lastFrom
+//@   modifies alloc, G:lastFrom, G:qKind, G:qColl, G:qFilter, G:qSort, G:qCount, G:qErr
 
 //@ func (*MongoCollections).InsertOperations
 //@   trusted MongoDB InsertMany (all-or-error as far as the reply tells)
 //@   mode math
+//@   props C06 C08
+//@   requires ctx != nil
+//@   checks[all-operations-in-one-insert] len(operations) > 0 && result == nil ==> G.qCount == old(G.qCount) + 1 && G.qKind == "InsertMany" && G.qColl == old(its.operations) && G.qDocs == len(operations)
+//@   checks[database-error-is-reported] G.qCount > old(G.qCount) && G.qErr != nil ==> result != nil
 //@   ensures result == nil ==> G.stored == old(G.stored) + len(operations)
 //@   ensures result != nil ==> G.stored >= old(G.stored)
-//@   modifies G:stored
+//@   modifies G:stored, alloc, G:qKind, G:qColl, G:qDocs, G:qCount, G:qErr
 
 // The recorded end of the log must never exceed what is stored (C06): this is a PRECONDITION of
 // writing the datatype document, checked at every call site.
 //@ func (*MongoCollections).UpdateDatatype
 //@   trusted MongoDB UpdateOne(upsert) of the datatype document
 //@   mode math
+//@   props C06 C08
+//@   requires ctx != nil
+//@   checks[one-upsert-of-this-datatype] G.qCount == old(G.qCount) + 1 && G.qKind == "UpdateOne" && G.qColl == old(its.datatypes) && len(qf()) == 1 && eqAt(qf(), 0, "_id", old(datatype.DUID))
+//@   checks[database-error-is-reported] G.qErr != nil ==> result != nil
 //@   requires[end-not-beyond-stored] datatype != nil && datatype.Sseq.End <= G.stored
-//@   modifies nothing
+//@   modifies alloc, G:qKind, G:qColl, G:qFilter, G:qCount, G:qErr, schema.DatatypeDoc.UpdatedDatatypeDoc/UpdatedAt
 
 //@ func (*MongoCollections).GetLatestSnapshot
 //@   trusted MongoDB FindOne {colNum, duid} sorted by sseq descending + BSON decode
 //@   mode math
+//@   props C11 C10
+//@   requires ctx != nil
+//@   checks[one-query-on-snapshots] G.qCount == old(G.qCount) + 1 && G.qKind == "FindOne" && G.qColl == old(its.snapshots)
+//@   checks[snapshots-of-this-datatype] len(qf()) == 2 && eqAt(qf(), 0, "colNum", collectionNum) && eqAt(qf(), 1, "duid", duid)
+//@   checks[latest-first] G.qSort != nil && G.qSort.(bson.D) && len(qs()) == 1 && eqAt(qs(), 0, "sseq", -1)
+//@   checks[database-error-is-reported] dbErr() ==> result1 != nil
 //@   ensures result1 != nil ==> result0 == nil
 //@   ensures[latest] result1 == nil ==> (result0 != nil ? fresh(result0) && result0.Sseq == G.snapSseq && G.snapSseq >= 1 : G.snapSseq == 0)
 //@   ensures[snapshot-not-beyond-log] G.snapSseq <= G.stored
-//@   modifies alloc
+//@   modifies alloc, G:qKind, G:qColl, G:qFilter, G:qSort, G:qCount, G:qErr
 
 //@ func (*MongoCollections).InsertSnapshot
 //@   trusted MongoDB InsertOne of the snapshot document {duid:sseq, colNum, duid, sseq, meta, snapshot}
@@ -105,16 +149,24 @@ package mongodb
 //@ func (*MongoCollections).GetCollection
 //@   trusted MongoDB FindOne {_id: name} on the collections collection + BSON decode
 //@   mode math
+//@   props C17
+//@   requires ctx != nil
+//@   checks[one-query-by-name] G.qCount == old(G.qCount) + 1 && G.qKind == "FindOne" && G.qColl == old(its.collections) && len(qf()) == 1 && eqAt(qf(), 0, "_id", name)
+//@   checks[database-error-is-reported] dbErr() ==> result1 != nil
 //@   ensures result1 != nil ==> result0 == nil
 //@   ensures result0 != nil ==> fresh(result0) && result0.Name == name
-//@   modifies alloc
+//@   modifies alloc, G:qKind, G:qColl, G:qFilter, G:qSort, G:qCount, G:qErr
 
 //@ func (*MongoCollections).GetClient
 //@   trusted MongoDB FindOne {_id: cuid} on the clients collection + BSON decode
 //@   mode math
+//@   props C17
+//@   requires ctx != nil
+//@   checks[one-query-by-cuid] G.qCount == old(G.qCount) + 1 && G.qKind == "FindOne" && G.qColl == old(its.clients) && len(qf()) == 1 && eqAt(qf(), 0, "_id", cuid)
+//@   checks[database-error-is-reported] dbErr() ==> result1 != nil
 //@   ensures result1 != nil ==> result0 == nil
 //@   ensures result0 != nil ==> fresh(result0) && result0.CUID == cuid
-//@   modifies alloc
+//@   modifies alloc, G:qKind, G:qColl, G:qFilter, G:qSort, G:qCount, G:qErr
 
 //@ func (*MongoCollections).UpdateClient
 //@   trusted MongoDB UpdateOne(upsert) of the client document
@@ -127,3 +179,52 @@ package mongodb
 //@   trusted MongoDB collection creation for the user-visible documents
 //@   mode math
 //@   modifies nothing
+
+// ---------------------------------------------------------------------------------------
+// Purging and numbering (C17): which documents a reset may touch, and fresh collection numbers.
+// lastCmd(c, kind, field, v): the last command sent to collection c is `kind` with filter {field: v}
+// ---------------------------------------------------------------------------------------
+//@ pred lastCmd(c *mongo.Collection, kind string, field string, v interface{}) = sel(G.cmdKind, c) == kind && len(sel(G.cmdFilter, c).(as schema.Filter)) == 1 && eqAt(sel(G.cmdFilter, c).(as schema.Filter), 0, field, v)
+
+//@ func (*MongoCollections).purgeAllCollectionDatatypes
+//@   trusted MongoDB DeleteMany semantics
+//@   mode math
+//@   props C17
+//@   requires ctx != nil && its.operations != its.snapshots && its.operations != its.datatypes && its.snapshots != its.datatypes
+//@   checks[operations-of-the-collection-only] result == nil ==> lastCmd(old(its.operations), "DeleteMany", "colNum", collectionNum)
+//@   checks[snapshots-of-the-collection-only]  result == nil ==> lastCmd(old(its.snapshots), "DeleteMany", "colNum", collectionNum)
+//@   checks[datatypes-of-the-collection-only]  result == nil ==> lastCmd(old(its.datatypes), "DeleteMany", "colNum", collectionNum)
+//@   checks[three-commands] result == nil ==> G.qCount == old(G.qCount) + 3
+//@   checks[database-error-is-reported] G.qErr != nil ==> result != nil
+//@   modifies alloc, G:qKind, G:qColl, G:qFilter, G:qCount, G:qErr, G:cmdKind, G:cmdFilter
+
+//@ func (*MongoCollections).purgeAllCollectionClients
+//@   trusted MongoDB DeleteMany semantics
+//@   mode math
+//@   props C17
+//@   requires ctx != nil
+//@   checks[clients-of-the-collection-only] result == nil ==> lastCmd(old(its.clients), "DeleteMany", "colNum", collectionNum) && G.qCount == old(G.qCount) + 1
+//@   checks[database-error-is-reported] G.qErr != nil ==> result != nil
+//@   modifies alloc, G:qKind, G:qColl, G:qFilter, G:qCount, G:qErr, G:cmdKind, G:cmdFilter
+
+//@ func (*MongoCollections).PurgeOperations
+//@   trusted MongoDB DeleteMany semantics
+//@   mode math
+//@   props C17
+//@   requires ctx != nil
+//@   checks[operations-of-this-datatype-only] G.qCount == old(G.qCount) + 1 && G.qKind == "DeleteMany" && G.qColl == old(its.operations) && len(qf()) == 2 && eqAt(qf(), 0, "colNum", collectionNum) && eqAt(qf(), 1, "duid", duid)
+//@   checks[database-error-is-reported] G.qErr != nil ==> result != nil
+//@   modifies alloc, G:qKind, G:qColl, G:qFilter, G:qCount, G:qErr, G:cmdKind, G:cmdFilter
+
+// GetNextCollectionNum: an atomic find-and-increment of the counter document, created when missing, that
+// returns the NEW value — so that every call returns a number no earlier call returned.
+//@ func (*MongoCollections).GetNextCollectionNum
+//@   trusted MongoDB FindOneAndUpdate semantics ($inc, upsert, ReturnDocument)
+//@   mode math
+//@   props C17
+//@   requires ctx != nil
+//@   checks[one-atomic-increment] G.qCount == old(G.qCount) + 1 && G.qKind == "FindOneAndUpdate" && G.qColl == old(its.counters) && len(qf()) == 1 && eqAt(qf(), 0, "_id", "collectionID")
+//@   checks[creates-the-counter-when-missing] G.qUpsert
+//@   checks[returns-the-incremented-value] G.qReturnAfter
+//@   checks[database-error-is-reported] dbErr() ==> result1 != nil
+//@   modifies alloc, G:qKind, G:qColl, G:qFilter, G:qCount, G:qErr, G:qUpsert, G:qReturnAfter, map[string]interface{}
